@@ -308,7 +308,7 @@ def check_sparse(res, rng, reps):
             res.count(("sparse-too-small", what, need), nontrivial=False, bucket="get_sparse_matrix:too_small")
             try:
                 S = get_sparse_matrix(obj, need - 1)
-                res.fail("sweep:get_sparse_matrix:too_small_n_qubits_accepted", f"returned shape {S.shape}",
+                res.fail("sweep:get_sparse_matrix:too_small_n_qubits_accepted", f"returned {getattr(S, 'shape', repr(S))}",
                          {"terms": [[list(k), repr(c)] for k, c in table.items()], "n_qubits": need - 1})
             except (AssertionError, ValueError, IndexError):
                 pass
